@@ -10,6 +10,10 @@ import (
 )
 
 func main() {
+	if len(os.Args) == 3 && os.Args[1] == "debug" {
+		checks.Silence()
+		os.Exit(checks.DebugReplay(os.Args[2]))
+	}
 	if len(os.Args) < 4 {
 		fmt.Fprintln(os.Stderr, "usage: check check|child <Cxx> <quick|thorough> [batch]")
 		os.Exit(2)
